@@ -57,6 +57,11 @@ def facts(ctx):
                  "bytes_left != HEADER_SIZE"):
         if frag not in desc:
             raise TieBroken(f"srcfacts: read_desc_box no longer contains `{frag}`")
+    hdr_body = common.fn_body(t, r"fn\s+read_header\s*<", "read_header")
+    if "bytes_read < buf.len()" not in hdr_body or "UnexpectedEof" not in hdr_body:
+        raise TieBroken("srcfacts: read_header no longer fills the 8 header bytes / reports a truncated header as UnexpectedEof (fix 7b268693b)")
+    if "checked_add(jumb_header.size)" not in body:
+        raise TieBroken("srcfacts: read_super_box_impl no longer computes dest_pos with checked_add (fix 7b268693b)")
     lines = ["(* generated from sdk/src/jumbf/boxes.rs on every run — do not edit *)",
              "From Coq Require Import NArith List.", "Import ListNotations.", "Open Scope N_scope.",
              f"Definition MAX_JUMB_DEPTH : N := {depth}.", f"Definition HEADER_SIZE : N := {hdr}.",
@@ -579,9 +584,10 @@ def evaluate(ctx, cases, with_model=True, stats=None):
         if r["r"] in ("panic", "crash"):
             pass    # robustness of the parser on hostile input is not this property; compared with the model below
         elif r["r"] == "hang":
-            # a parser that does not return has not accepted the input: outside this property (C10); counted, and
-            # compared with the model (which runs out of fuel on the same inputs)
+            # since fix 7b268693b (complete header reads) no input is known to do this; the model would have to run
+            # out of fuel on the same input, otherwise it is a disagreement
             stats["parser_hangs"] = stats.get("parser_hangs", 0) + 1
+            ctx.report_violation(full_case(c), "parser did not return within its deadline", mi)
         elif r["r"] == "ok":
             sdk = c.get("origin") in ("sdk",)
             if c["op"] == "store" and sdk and not r.get("same_as_input"):
@@ -743,7 +749,7 @@ def run(ctx):
     stats["sdk_store_failures"] = failed
     if not stores:
         raise TieBroken("no SDK-produced manifest store could be obtained (fixtures unreadable and Builder::sign failing)")
-    model_limit = 40000 if q else 260000
+    model_limit = 25000 if q else 260000
     for name, j in stores:
         cases.append({"op": "store", "data": j, "origin": "sdk", "name": name})
         if len(j) // 2 <= model_limit:
@@ -756,7 +762,7 @@ def run(ctx):
     for t in real_trees:
         cases.append({"op": "box", "data": ser(t).hex(), "origin": "real-shrunk"})
         cases.append({"op": "store", "data": ser(t).hex(), "origin": "real-shrunk"})
-    for _ in range(30 if q else 200):
+    for _ in range(16 if q else 200):
         t = rng.choice(real_trees)
         m, post, w = mutate(rng, t)
         cases.append({"op": "box", "data": post(ser(m)).hex(), "origin": "real-mutant:" + w})
@@ -764,7 +770,7 @@ def run(ctx):
         b, w = store_mutant(rng, rng.choice(real_trees))
         cases.append({"op": "store", "data": b.hex(), "origin": "store-mutant:" + w})
     # 3. generated trees, parser-accepted (and rejected) structure-aware mutants
-    for i in range(150 if q else 1500):
+    for i in range(120 if q else 1500):
         t = gen_tree(rng)
         m, post, w = mutate(rng, t)
         if rng.random() < 0.3:
@@ -780,7 +786,7 @@ def run(ctx):
     evaluate(ctx, cases, stats=stats)
     lap("evaluated")
     # 4. model-generated well-formed trees serialised by the *model's* encoder
-    trees = [gen_tree(rng) for _ in range(100 if q else 800)]
+    trees = [gen_tree(rng) for _ in range(80 if q else 800)]
     outs = common.coq_eval("C18t", IMPORTS, [f"tree_report {coq_tree(t)}" for t in trees], shard_size=25, timeout=1500)
     mcases, mreports = [], {}
     stats["model_trees"] = {"n": len(trees), "not_wf": 0, "python_writer_differs": 0}
